@@ -531,7 +531,8 @@ namespace avel {
         AVEL_FINL explicit operator mask() const {
             #if defined(AVEL_AVX512VL) || defined(AVEL_AVX10_1)
             auto t = _mm256_castps_si256(content);
-            return mask{_mm256_test_epi32_mask(t, t)};
+            (void) t;
+            return mask{_mm256_cmp_ps_mask(content, _mm256_setzero_ps(), _CMP_NEQ_UQ)};
 
             #elif defined(AVEL_AVX)
             return mask{_mm256_cmp_ps(content, _mm256_setzero_ps(), _CMP_NEQ_UQ)};
